@@ -47,6 +47,10 @@ C_META_DEF = clause(U, 'post:meta_default_common_or_None', ['C10'], 'B')
 C_META_ANN = clause(U, 'post:meta_annotation_agreed', ['C10'], 'B')
 C_META_KIND = clause(U, 'post:meta_kind_only_restricts', ['C10'], 'B')
 C_META_ORDER = clause(U, 'post:meta_positional_order_kept', ['C10'], 'B')
+C_META_NAME = clause(U, 'post:meta_same_name_contributes', ['C10'], 'B',
+                     'independent of the bookkeeping of the code (which parameters it reconciled): when the positional names of the inputs are '
+                     'aligned, EVERY keyword-passable input parameter named like a keyword-passable result parameter constrains it - optional only '
+                     'if that one is, default its default or None, annotation not contradicting it, keyword-only if that one is')
 C_UA = clause(U, 'post:ua_follows', ['C11'], 'B')
 C_SRC_WF = clause(U, 'post:sources_wf', ['C08'], 'B')
 C_SRC_EXACT = clause(U, 'post:sources_exact', ['C08'], 'B')
@@ -194,7 +198,7 @@ def merge_vcs(env, want):
         out.append(VC(C_WF.full + ':valid', [], spec.wf(Z3Ops, resv), C_WF.props))
 
     # ---- metadata rules over ghost stands_for
-    if on(C_META_OPT) or on(C_META_DEF) or on(C_META_ANN) or on(C_META_KIND) or on(C_META_ORDER) or on(C_UA):
+    if on(C_META_OPT) or on(C_META_DEF) or on(C_META_ANN) or on(C_META_KIND) or on(C_META_ORDER) or on(C_UA) or on(C_META_NAME):
         input_params = {id(p): (ii, pi) for ii, inf in enumerate(infos) for pi, p in enumerate(inf.params)}
         for p in rparams:
             st = stands_of(p)
@@ -225,6 +229,16 @@ def merge_vcs(env, want):
                 out.append(VC(C_META_KIND.full + tag, [], z3.BoolVal(ok), C_META_KIND.props))
             if on(C_UA):
                 out.append(VC(C_UA.full + tag, [], ua_follows_goal(p, EmptyAnn), C_UA.props))
+            if on(C_META_NAME) and p.kind in (POK, KWO) and len(infos) == 2:      # (stated for pairs: in a fold an earlier step may have consumed the name positionally)
+                pos_aligned = [spec.name_aligned(Z3Ops, x, y) for x, y in itertools.combinations(in_views, 2)]
+                for inf in infos:
+                    for s in inf.params:
+                        if s.kind not in (POK, KWO) or any(s is t for t in st):
+                            continue
+                        sd, sa = s._d['_default'], s._d['_annotation']
+                        goal = z3.And(z3.Implies(d.has, sd.has), z3.Implies(z3.And(d.has, sd.has), z3.Or(d.val == sd.val, d.val == NONEVAL)),
+                                      z3.Implies(z3.And(a.has, sa.has), a.val == sa.val), z3.BoolVal(not (s.kind == KWO and p.kind == POK)))
+                        out.append(VC(C_META_NAME.full + tag + ':' + s._d.get('_vf_tag', '?'), pos_aligned + [Z3Ops.eq(name_term(p), name_term(s))], goal, C_META_NAME.props))
         if on(C_UA):
             out.append(VC(C_UA.full + ':return', [], ua_return_goal(res, infos[0].sig, EmptyAnn), C_UA.props))
         if on(C_META_ORDER):
